@@ -95,6 +95,17 @@ theorem survive_sim (n : Nat) (x y idx : List Nat) (hx : x.length = 2 * n) (hy :
     rw [List.getElem?_append_right (by omega), hidx]
     congr 1; omega
 
+theorem simJoin_dims {a b : Net} {n : Nat} {va vb : STensor} (hva : dget a.tensors (-1) = some va)
+    (hvb : dget b.tensors (-1) = some vb) (hsa : va.shape = rep2 (2 * n)) (hsb : vb.shape = rep2 n) :
+    C08.JoinDimsMatch a b (simJoin n) := by
+  intro va' vb' hva' hvb' ja hja
+  rw [hva] at hva'; rw [hvb] at hvb'
+  cases hva'; cases hvb'
+  obtain ⟨i, hi, rfl⟩ := mem_simJoin.mp hja
+  rw [hsa, hsb]
+  simp only [rep2, Int.ofNat_eq_natCast, Int.toNat_natCast]
+  rw [List.getElem?_replicate, List.getElem?_replicate, if_pos (by omega), if_pos hi]
+
 section Merge
 variable {α : Type} [CommSemiring α]
 
@@ -107,14 +118,7 @@ theorem sim_merge_full {a b net' : Net} {n : Nat} {tor bor : List Int} (ha : C08
     C08.Inv net' ∧ (∃ v', dget net'.tensors (-1) = some v' ∧ v'.shape = rep2 n) ∧
     ∀ idx, idx.length = n → Bits idx →
       full net' D idx = ((allIdx (rep2 n)).map (fun y => full a D (idx ++ y) * full b D y)).sum := by
-  have hdim : C08.JoinDimsMatch a b (simJoin n) := by
-    intro va' vb' hva' hvb' ja hja
-    rw [hva] at hva'; rw [hvb] at hvb'
-    cases hva'; cases hvb'
-    obtain ⟨i, hi, rfl⟩ := mem_simJoin.mp hja
-    rw [hsa, hsb]
-    simp only [rep2, Int.ofNat_eq_natCast, Int.toNat_natCast]
-    rw [List.getElem?_replicate, List.getElem?_replicate, if_pos (by omega), if_pos hi]
+  have hdim : C08.JoinDimsMatch a b (simJoin n) := simJoin_dims hva hvb hsa hsb
   have hinv' : C08.Inv net' := C08.C08_merge_consistent ha hb ho hdim hm
   obtain ⟨v', hv', hsh', hval'⟩ := C08.C08_merge_full ha hb ho hdim hm D hva hvb
   rw [hsa, hsb] at hsh' hval'
@@ -154,7 +158,8 @@ variable {α : Type} [Zero α] [One α] [Add α] [Mul α] [DecidableEq α]
 
 theorem tnRunNet_ok {fields : List FieldSpec} {instrs : List (CInstr α)} {tor bor : List Int} {tn' : TN α}
     (h : tnRunNet fields instrs tor bor = .ok tn') :
-    ∃ init tn, initTN (wireDims fields) = .ok init ∧ circuitNet fields instrs = .ok tn ∧
+    ∃ init tn, initTN (wireDims fields) = .ok init ∧ GateNet.isConsistentData init = .ok true ∧
+      circuitNet fields instrs = .ok tn ∧
       mergeTN tn init (simJoin (wireDims fields).length) tor bor = .ok tn' := by
   unfold tnRunNet at h
   simp only [bind, Except.bind] at h
@@ -184,7 +189,16 @@ theorem tnRunNet_ok {fields : List FieldSpec} {instrs : List (CInstr α)} {tor b
             | error e => rw [hn2] at h; cases h
             | ok k2 =>
               rw [hn2] at h
-              exact ⟨init, tn, rfl, rfl, h⟩
+              refine ⟨init, tn, rfl, ?_, rfl, h⟩
+              unfold assertConsistent at ha
+              simp only [bind, Except.bind] at ha
+              cases hd : GateNet.isConsistentData init with
+              | error e => rw [hd] at ha; simp [liftT] at ha
+              | ok b =>
+                rw [hd] at ha
+                cases b with
+                | false => simp [liftT, throw, throwThe, MonadExceptOf.throw] at ha
+                | true => rfl
 
 theorem tnRun_ok {fields : List FieldSpec} {instrs : List (CInstr α)} {tor bor : List Int} {psi : DT α}
     (h : tnRun fields instrs tor bor = .ok psi) :
